@@ -123,19 +123,34 @@ def check_replication(rng, X, desc):
     ct = str(rng.choice(["full", "diag"]))
     iters = int(rng.integers(1, 6))
     seed = int(rng.integers(0, 2 ** 31))
-    a = GaussianMixture(n_components=K, covariance_type=ct, random_state=seed, max_iter=iters, tol=-np.inf)
-    b = GaussianMixture(n_components=K, covariance_type=ct, random_state=seed, max_iter=iters, tol=-np.inf)
+    # several restarts: which one is kept must not depend on whether the weights are given as weights or as copies either
+    n_init = int(rng.choice([1, 1, 3, 4]))
+    if n_init > 1:
+        K = int(rng.integers(2, 4))
+        iters = int(rng.integers(3, 12))
+    a = GaussianMixture(n_components=K, covariance_type=ct, random_state=seed, max_iter=iters, tol=-np.inf, n_init=n_init)
+    b = GaussianMixture(n_components=K, covariance_type=ct, random_state=seed, max_iter=iters, tol=-np.inf, n_init=n_init)
     with np.errstate(all="ignore"):
         a.fit(X, sample_weight=wi.astype(float))
         b.fit(np.repeat(X, wi, axis=0))
     sc = max(1.0, float(np.max(np.abs(X))))
-    dm = float(np.max(np.abs(a.means_ - b.means_))) / sc
-    dw = float(np.max(np.abs(a.weights_ - b.weights_)))
-    dc = float(np.max(np.abs(np.asarray(a.covariances_) - np.asarray(b.covariances_)))) / sc ** 2
-    if max(dm, dw, dc) > 1e-6:
+    import itertools
+    best = None
+    # with several restarts two of them may reach the same optimum with the components in another order, and which of the
+    # two is kept is decided by the last bit of the bound: compare up to a permutation of the components
+    for perm in (itertools.permutations(range(K)) if n_init > 1 else [tuple(range(K))]):
+        pm = list(perm)
+        heavy = (a.weights_ > 1e-3) | (b.weights_[pm] > 1e-3)      # a component of negligible weight has an arbitrary mean
+        dm = float(np.max(np.abs(a.means_ - b.means_[pm])[heavy])) / sc if heavy.any() else 0.0
+        dw = float(np.max(np.abs(a.weights_ - b.weights_[pm])))
+        dc = float(np.max(np.abs(np.asarray(a.covariances_) - np.asarray(b.covariances_)[pm])[heavy])) / sc ** 2 if heavy.any() else 0.0
+        if best is None or max(dm, dw, dc) < max(best):
+            best = (dm, dw, dc)
+    dm, dw, dc = best
+    if max(dm, dw, dc) > (1e-6 if n_init == 1 else 1e-5):
         # k-means++ seeding picks the same *point* only if the draw does not land within rounding of a
         # cumulative-weight boundary; a different seed point is a different (legitimate) EM start
-        return [("gmm-replication", f"integer weights vs replicated points differ: means {dm:.3g} weights {dw:.3g} cov {dc:.3g} ({ct},K={K},iters={iters})")]
+        return [("gmm-replication", f"integer weights vs replicated points differ: means {dm:.3g} weights {dw:.3g} cov {dc:.3g} ({ct},K={K},iters={iters},n_init={n_init})")]
     return []
 
 
